@@ -77,6 +77,11 @@ func (d *Decorator) ParseFile(filename string, src interface{}, mode parser.Mode
 	if perr != nil && f == nil {
 		return nil, perr
 	}
+	if perr != nil && !f.Package.IsValid() {
+		// If the package clause can't be parsed (e.g. empty input), the parser returns a placeholder
+		// file with no position information. This can't be decorated, so we just return the error.
+		return nil, perr
+	}
 
 	file, err := d.DecorateFile(f)
 	if err != nil {
